@@ -62,7 +62,8 @@ PROP = dict(
               "and by name); non-trivial = (a), (b) always, (c) when >= 3 registrations of >= 2 kinds were accepted and >= 1 refused; "
               "distinct = 64-bit hash of the registration sequence with arguments; C++ leg: one process per PRNG history of 20..200 "
               "operations through mpt::type_traits::add/add_basic/add_interface/add_metatype/get and type_properties<T>::id()/traits() for "
-              "12 harness types and the built-in specialisations (every 6th history fills the generic range first); library-registrations leg: "
+              "12 harness types and the built-in specialisations (every 6th history fills the generic range first; 2 of 8 histories query the 10 "
+              "lazily registering C++ sites listed in notes/C06.md after the application took their names and/or filled a range); library-registrations leg: "
               "one process per PRNG history of 30..160 operations (call one of the 11 registering convenience functions, register a harness "
               "type, overwrite the stack below the caller, look everything up; 5 of 12 histories first exhaust one or all id ranges with harness types, 1 of 12 fills the generic range midway), non-trivial when "
               ">= 6 library ids and >= 2 harness ids exist"),
